@@ -36,7 +36,7 @@ ASSUMPTIONS = {'C07': ['lamb > 0 (as in the quantifier); shapes d<=5, n_k<=5, ra
                        'the measured response of the same map to 1e-9 relative noise in y (3 probes) with a floor of 1e-10 relative']}
 EXPECTED_PROBES = {'C07': ['restart_bitwise', 'single_sample_slice_row0', 'cancelled_by_cb', 'permuted_restart', 'order_checked',
                            'optimality_checked', 'descent_checked', 'rank_adaptive', 'missing_slice_rejected', 'skip_cores_unchanged',
-                           'als_func_runs', 'weights', 'stop_e', 'stop_e_vld', 'stop_e_vld_mid_run', 'func_mode_size_reduced']}
+                           'als_func_runs', 'weights', 'stop_e', 'stop_e_vld', 'stop_e_vld_mid_run', 'e_vld_without_data', 'func_mode_size_reduced']}
 BUDGET = {'C07': {'quick': {'n': 1500, 'max_s': 150, 'chunk': 10}, 'thorough': {'n': 120000, 'max_s': 3000, 'chunk': 25}}}
 
 
@@ -772,6 +772,21 @@ def execute_contract(sc):
             ev = np.linalg.norm(predict(o.Y, Iv) - yv) / np.linalg.norm(yv)
             if abs(o.info.get('e_vld', -1) - ev) > 1e-9 * max(1, ev):
                 V.append(viol('info-e_vld', 'info[e_vld]=%r, validation error of the returned tensor is %r' % (o.info.get('e_vld'), ev)))
+        # a validation threshold without validation data has nothing to be compared with: the run does its nswp sweeps like the plain run
+        if not V:
+            ns_ = int(g.integers(2, 5))
+            sc_nv = dict(sc, vld=False)
+            oa = run_job(sc_nv, I, y, w, Y0, ns_, extra={'e_vld': [1e9, 0.5, 1e-3][int(g.integers(0, 3))]})
+            ob = run_job(sc_nv, I, y, w, Y0, ns_)
+            runs += 2
+            P('e_vld_without_data')
+            if oa.Y is None or ob.Y is None:
+                if (oa.Y is None) != (ob.Y is None):
+                    V.append(viol('exception', 'als with e_vld but without validation data: %r, the same call without e_vld: %r' % (oa.exc, ob.exc)))
+            elif oa.info.get('stop') != ob.info.get('stop') or oa.info.get('nswp') != ob.info.get('nswp') or not same_bits(oa.Y, ob.Y):
+                V.append(viol('stop', 'als with e_vld but without validation data: stop=%r after %r sweeps; the same call without e_vld: stop=%r after %r sweeps%s'
+                              % (oa.info.get('stop'), oa.info.get('nswp'), ob.info.get('stop'), ob.info.get('nswp'),
+                                 '' if same_bits(oa.Y, ob.Y) else ', other tensor')))
         # a threshold that is crossed at some later sweep: the run must stop right after that sweep, with the tensor a plain run of that many sweeps returns
         if not V:
             ref = run_job(sc, I, y, w, Y0, 5, extra={'I_vld': Iv, 'y_vld': yv})
